@@ -98,14 +98,29 @@ def body(run: Run, replay):
             return 0, [np.eye(3) for _ in bnd_xyz]
         A = np.array([-7.0, -5.0, -6.0]) + rng.uniform(-1, 1, 3)
         q, _ = np.linalg.qr(rng.standard_normal((3, 3)))
+        onaxis = None
+        if oc in (2, 3) and rng.uniform() < 0.35:
+            # put the FIRST boundary grid exactly on the polar axis of the output system (positive or negative side): exact
+            # arithmetic needs axis-parallel directions, so the system is axis-aligned with the basic system here
+            q = np.eye(3)[:, rng.permutation(3)] * rng.choice([-1.0, 1.0], 3)
+            if np.linalg.det(q) < 0:
+                q[:, 0] = -q[:, 0]
+            side = float(rng.choice([-1.0, 1.0]))
+            A = np.array(bnd_xyz[0], float) - side * 3.7 * q[:, 2]
+            onaxis = 0
         card = np.array([[9, oc, 0], A, A + 3 * q[:, 2], A + 3 * q[:, 0] + 0.5 * q[:, 2]])
         z = (card[2] - card[1]) / np.linalg.norm(card[2] - card[1])
         y = np.cross(z, card[3] - card[1])
         y /= np.linalg.norm(y)
         Tm = np.column_stack((np.cross(y, z), y, z))
         Gs = []
-        for x in bnd_xyz:
-            G = terms.evm(gen[oc]["frame"], {"O": mp.matrix(A.tolist()), "T": mp.matrix(Tm.tolist()), "x": mp.matrix([float(v) for v in x])}, mp)
+        for jx, x in enumerate(bnd_xyz):
+            which = "frameaxis" if jx == onaxis else "frame"
+            if jx != onaxis and oc in (2, 3):
+                dloc = Tm.T @ (np.array(x, float) - A)
+                if abs(dloc[0]) + abs(dloc[1]) < 1e-6:
+                    which = "frameaxis"          # another boundary grid happens to lie on the axis as well
+            G = terms.evm(gen[oc][which], {"O": mp.matrix(A.tolist()), "T": mp.matrix(Tm.tolist()), "x": mp.matrix([float(v) for v in x])}, mp)
             Gs.append(f2n(G))
         return card, Gs
 
@@ -314,7 +329,17 @@ def body(run: Run, replay):
             if len(hist) % 2 == 0 or pending_conv is not None:
                 # reference given as a location (in the units BEFORE cbcheck's own conversion, as documented)
                 uref = np.array(grids[order[0] - 1][0], float) * (LCONV_M2E ** e_before)
+            snap = [np.array(x, copy=True) for x in (M1, K1, bseto, np.asarray(uref, float), uset.values)]
             out = cb.cbcheck(io.StringIO(), M1, K1, bseto, bseto[:6], uset, uref=uref, conv=pending_conv, rb_norm=True)
+            # the call leaves its arguments alone, and the very same call again gives the very same answer
+            now = [M1, K1, bseto, np.asarray(uref, float), uset.values]
+            if not all(a_.shape == b_.shape and np.array_equal(a_, b_, equal_nan=True) for a_, b_ in zip(snap, now)):
+                run.violation("cbcheck modified one of its arguments (Mcb, Kcb, bseto, uref or the USET table)", {"desc": d, "hist": hist}, dict(tags, clause="inputs"))
+            out_b = cb.cbcheck(io.StringIO(), M1, K1, bseto, bseto[:6], uset, uref=uref, conv=pending_conv, rb_norm=True)
+            # (rbe comes from an iterative eigensolver with a random start vector: equal to round-off only)
+            if not (all(np.array_equal(getattr(out, nm_), getattr(out_b, nm_)) for nm_ in ("m", "k", "rbs", "rbg"))
+                    and np.allclose(out.rbe, out_b.rbe, rtol=0, atol=1e-7 * max(1.0, np.abs(out.rbe).max()))):
+                run.violation("two identical cbcheck calls give different results", {"desc": d, "hist": hist}, dict(tags, clause="repeat"))
         except Exception as ex:
             run.violation("history %s raised %r" % (hist, ex), {"desc": d}, tags)
             continue
@@ -381,6 +406,28 @@ def body(run: Run, replay):
             run.violation("reordering / unit conversion is not undone by its inverse (%s)" % hist, {"desc": d}, dict(tags, clause="inverse"))
         run.trace_validated()
 
+    # ---- the stand-alone functions leave their arguments alone (float ndarray reference point included)
+    for trial in range(20):
+        nbt = 12
+        n = nbt + 3
+        a_ = rng.standard_normal((n, n))
+        Mx = a_ @ a_.T
+        bs = np.arange(nbt)[::-1].copy() if trial % 2 else np.arange(nbt)
+        ref = rng.uniform(1, 5, 3)
+        us = n2p.addgrid(None, [11, 12], "b", 0, rng.uniform(-3, 3, (2, 3)), 0)
+        snap = [Mx.copy(), bs.copy(), ref.copy(), us.values.copy()]
+        run.case(("immutable", trial), part="arguments untouched")
+        cb.cbconvert(Mx, bs, "m2e")
+        cb.cbconvert(Mx, bs, "e2m", drm=True)
+        cb.cbreorder(Mx, bs, last=bool(trial % 3))
+        u2, r2 = cb.uset_convert(us, ref, "m2e")
+        u3, r3 = cb.uset_convert(us, ref, "m2e")
+        cb.cgmass(Mx[:6, :6])
+        now = [Mx, bs, ref, us.values]
+        if not all(np.array_equal(x_, y_) for x_, y_ in zip(snap, now)):
+            run.violation("cbconvert / cbreorder / uset_convert / cgmass modified an argument", {"trial": trial}, {"fn": "immutability"})
+        if not (np.array_equal(r2, r3) and np.array_equal(u2.values, u3.values) and np.allclose(r2, ref * LCONV_M2E, rtol=1e-15)):
+            run.violation("uset_convert: the same call twice gives different results / wrong reference point", {"trial": trial}, {"fn": "uset_convert"})
     # ---- cgmass on rigid 6x6 masses (the doc's matrix from mass, cg offset, inertia at cg)
     for trial in range(60):
         mval = float(rng.uniform(0.5, 50))
